@@ -8,6 +8,7 @@ CONSTANTS Weights = {}
  PaySenders = {}
  PayFields = {}
  GpFields = {}
+ MaxOver = 0
  BoxCfgs = {}
  Kinds = {}
  ReconfCfgs = {}
